@@ -1462,9 +1462,12 @@ func (gs *GossipSubRouter) Join(topic string) {
 		backoff := gs.backoff[topic]
 		// these peers have a score above the publish threshold, which may be negative
 		// so drop the ones with a negative score
+		// nor do we graft direct peers (a peer can become direct after it was
+		// selected for fanout)
 		for p := range gmap {
 			_, doBackOff := backoff[p]
-			if gs.score.Score(p) < 0 || doBackOff {
+			_, direct := gs.direct[p]
+			if gs.score.Score(p) < 0 || doBackOff || direct {
 				delete(gmap, p)
 			}
 		}
